@@ -142,9 +142,14 @@ def legal_spec(draw, *, max_axes=6, allow_q=False, bound=(), holes=False, multi_
 
 
 def whitespace_seps(draw, n):
-    ws = st.text(alphabet=" \t\n\r\x0b\x0c", min_size=1, max_size=3)
-    lead = draw(st.text(alphabet=" \t\n", max_size=2))
-    trail = draw(st.text(alphabet=" \t\n", max_size=2))
+    # (built from lists of sampled characters rather than st.text(alphabet=...): strings over DIFFERENT alphabets at the same position
+    # of a choice sequence trip an internal error of Hypothesis 6.168's shrinker -- "ValueError: 42 is not in list")
+    def _chars(alphabet, lo, hi):
+        return st.lists(st.sampled_from(list(alphabet)), min_size=lo, max_size=hi).map("".join)
+
+    ws = _chars(" \t\n\r\x0b\x0c", 1, 3)
+    lead = draw(_chars(" \t\n", 0, 2))
+    trail = draw(_chars(" \t\n", 0, 2))
     if n == 0:
         return [lead + trail]
     return [lead] + [draw(ws) for _ in range(n - 1)] + [trail]
